@@ -125,10 +125,7 @@ def IsDynamic(default: str, qtype: str) -> bool:
     uninterpreted()
 
 
-@contract("default_is_dynamic", module="pyxform.utils")
-def _(element_default: str, element_type: str) -> bool:
-    trusted("token-level classification of the default text: bounded native contract (contracts/utils_bounded.py)")
-    ensures(result == IsDynamic(element_default, element_type))
+# (default_is_dynamic itself: bounded native contract in contracts/utils_bounded.py, linked through IsDynamic)
 
 
 @contract("SurveyElement.get_setvalue_node_for_dynamic_default")
